@@ -46,6 +46,12 @@ theorem inv_clone {s s' : State} {a b mode : Nat} {fill : Int} (hi : Inv s)
         simp only [List.count_nil] at *
         omega
 
+theorem ownIds_getD_empty (o : Option Cont) (k d i : Nat) (sx : List Nat) :
+    (o.getD (Cont.empty k d i sx)).ownIds = optIds o := by
+  cases o with
+  | none => simp only [Option.getD, ownIds_empty, optIds]
+  | some c => rfl
+
 theorem inv_conv {s s' : State} {a b dt it : Nat} (hi : Inv s)
     (h : step s (.conv a b dt it) = .ok s') : Inv s' := by
   unfold step at h
@@ -58,42 +64,41 @@ theorem inv_conv {s s' : State} {a b dt it : Nat} (hi : Inv s)
     · rename_i hc
       simp only [decide_eq_true_eq, Nat.not_le] at hc
       split at h
-      · rename_i hsa
-        split at h
+      · cases h
+      · split at h
         · cases h
-        · split at h
-          · cases h
-          · rename_i p1 c1 hr
-            injection h with h; subst h
-            obtain ⟨d, hp1⟩ := delta_assign hr hi.1
-            refine inv_setSlot hi hc ?_ hp1
-            rw [optIds_some, hsa]
-            rw [ownIds_empty] at d; exact d
-      · rename_i ca hsa
-        split at h
-        · cases h
-        · split at h
-          · cases h
-          · rename_i p1 c1 hr
-            injection h with h; subst h
-            obtain ⟨d, hp1⟩ := delta_assign hr hi.1
-            refine inv_setSlot hi hc ?_ hp1
-            rw [optIds_some, hsa]; exact d
+        · rename_i p1 c1 hr
+          injection h with h; subst h
+          obtain ⟨d, hp1⟩ := delta_assign hr hi.1
+          refine inv_setSlot hi hc ?_ hp1
+          rw [optIds_some, ← ownIds_getD_empty (s.slot a)]; exact d
 
-theorem inv_xconv_aux {s : State} {a : Nat} {ca cb c1 : Cont} {p0 p1 : Pool} {q : Ptr} {n len : Nat}
-    (hi : Inv s) (ha : a < s.slots.length) (hown : ca.ownIds = optIds (s.slot a))
-    (hrel : ca.releaseOwn s.pool = .ok p0) (hinc : incr p0 q = .ok p1)
-    (hc1 : c1 = { Cont.empty (1 - cb.kind) cb.dt cb.it [n] with elems := [q], elemsSize := [len] }) :
-    Inv ({ s with pool := p1 }.setSlot a (some c1)) := by
-  obtain ⟨d0, hp0⟩ := delta_releaseOwn hrel hi.1
-  obtain ⟨d1, hp1⟩ := delta_incr hinc hp0
-  refine inv_setSlot hi ha ?_ hp1
-  intro j
-  have := d0 j; have := d1 j
-  rw [← hown, hc1]
-  simp only [optIds, Cont.ownIds, Cont.owned, Cont.empty, idsOf_append, idsOf_cons,
-    idsOf_nil, List.count_append, List.count_nil, Bool.false_eq_true, if_false] at *
-  omega
+theorem delta_xconvFrom {p p' : Pool} {self other c' : Cont}
+    (h : Cont.xconvFrom p self other = .ok (p', c')) (hp : PoolPos p) :
+    Delta p p' c'.ownIds self.ownIds ∧ PoolPos p' := by
+  unfold Cont.xconvFrom at h
+  split at h
+  · cases h
+  · split at h
+    · cases h
+    · rename_i p0 hrel
+      obtain ⟨d0, hp0⟩ := delta_releaseOwn hrel hp
+      dsimp only at h
+      split at h
+      · injection h with h; injection h with e1 e2; subst e1; subst e2
+        rw [ownIds_empty]; exact ⟨d0, hp0⟩
+      · rename_i q rest hel
+        split at h
+        · cases h
+        · rename_i p1 hinc
+          obtain ⟨d1, hp1⟩ := delta_incr hinc hp0
+          injection h with h; injection h with e1 e2; subst e1; subst e2
+          refine ⟨?_, hp1⟩
+          intro j
+          have := d0 j; have := d1 j
+          simp only [Cont.ownIds, Cont.owned, Cont.empty, idsOf_append, idsOf_cons,
+            idsOf_nil, List.count_append, List.count_nil, Bool.false_eq_true, if_false] at *
+          omega
 
 theorem inv_xconv {s s' : State} {a b : Nat} (hi : Inv s) (h : step s (.xconv a b) = .ok s') : Inv s' := by
   unfold step at h
@@ -107,37 +112,13 @@ theorem inv_xconv {s s' : State} {a b : Nat} (hi : Inv s) (h : step s (.xconv a 
       simp only [Bool.or_eq_true, decide_eq_true_eq, not_or, Nat.not_le, Bool.not_eq_true] at hc
       obtain ⟨ha, _⟩ := hc
       split at h
-      · rename_i hsa
-        split at h
+      · cases h
+      · split at h
         · cases h
-        · split at h
-          · cases h
-          · split at h
-            · cases h
-            · rename_i p0 hrel
-              split at h
-              · cases h
-              · rename_i q rest hel
-                split at h
-                · cases h
-                · rename_i p1 hinc
-                  injection h with h; subst h
-                  exact inv_xconv_aux (cb := cb) hi ha (by rw [hsa, ownIds_empty]; rfl) hrel hinc rfl
-      · rename_i ca hsa
-        split at h
-        · cases h
-        · split at h
-          · cases h
-          · split at h
-            · cases h
-            · rename_i p0 hrel
-              split at h
-              · cases h
-              · rename_i q rest hel
-                split at h
-                · cases h
-                · rename_i p1 hinc
-                  injection h with h; subst h
-                  exact inv_xconv_aux (cb := cb) hi ha (by rw [hsa]; rfl) hrel hinc rfl
+        · rename_i p1 c1 hr
+          injection h with h; subst h
+          obtain ⟨d, hp1⟩ := delta_xconvFrom hr hi.1
+          refine inv_setSlot hi ha ?_ hp1
+          rw [optIds_some, ← ownIds_getD_empty (s.slot a)]; exact d
 
 end FeatModel.Pool
